@@ -10,7 +10,7 @@ THEOREMS = ['ParsecVerif.C14.C14_slots', 'ParsecVerif.C14.C14_served_once', 'Par
             'ParsecVerif.C14.C14_delivery_order_caveat']
 IMPL = 'parsec/parsec_mpi_funnelled.c'
 ENGINE = 'lean-trace'
-LEVEL = 'other'
+LEVEL = 'proof'
 LEVEL_TEXT = ('Lean 4 theorems, for all configurations (any number of tags, posted >= tested >= 1, any dynamic capacity and receive quota), all API call sequences and '
               'all MPI_Testsome outcomes (any ascending set of active indices per pass): the request-array bookkeeping of parsec_mpi_funnelled.c keeps its slot invariant '
               '(every window slot holds a distinct persistent receive of its own tag, callback record = request, storage1 = slot, reqs_in_testsome = window membership; the '
@@ -127,7 +127,7 @@ SETTINGS_MORE = [(1, 1, 2, 1), (2, 1, 1, 1), (3, 3, 3, 3), (6, 4, 5, 2), (10, 1,
 
 
 # ------------------------------------------------------------------ running one case
-def run_case(ctx, exe, np, setting, lines, tag, timeout=300, stuck=45):
+def run_case(ctx, exe, np, setting, lines, tag, timeout=600, stuck=45):
     """Returns dict(rc, ranks=[raw transcript text per rank], complete, err)."""
     script = ctx.path('script-%s.txt' % tag)
     prefix = ctx.path('out-%s' % tag)
@@ -146,7 +146,7 @@ def run_case(ctx, exe, np, setting, lines, tag, timeout=300, stuck=45):
         rc, out, err = pv.sh(['mpiexec', '--oversubscribe', '-n', str(np)] + xs + [exe, 'run', script, prefix], env=env, timeout=timeout)
         ranks = [open('%s.%d' % (prefix, r)).read() if os.path.exists('%s.%d' % (prefix, r)) else '' for r in range(np)]
         complete = all(t.rstrip().endswith('#end') for t in ranks)
-        last = {'rc': rc, 'ranks': ranks, 'complete': complete, 'err': (out + err)[-1500:]}
+        last = {'rc': rc, 'ranks': ranks, 'complete': complete, 'err': (out + err)[-30000:]}
         if rc == 0 or complete or any(t.strip() for t in ranks):
             break   # only a launch that produced nothing at all (mpiexec start-up failure) is retried
     return last
@@ -249,6 +249,7 @@ def mixes_put_get(lines):
 
 
 def evaluate(ctx, res, exe, np, setting, lines, tag, dist, shrink=True, stuck=45):
+    stuck_s = stuck
     """Run one case, compare with the model, evaluate the oracle.  Returns True if clean."""
     r = run_case(ctx, exe, np, setting, lines, tag, stuck=stuck)
     case = {'np': np, 'setting': list(setting), 'script': lines, 'stuck': stuck}
@@ -271,9 +272,17 @@ def evaluate(ctx, res, exe, np, setting, lines, tag, dist, shrink=True, stuck=45
                                'what': 'no request completed for the stuck-detection delay although transfers are outstanding; every dynamic slot holds a receive whose matching send waits in the peer\'s send FIFO: ' + ' || '.join(' '.join(e[2:])[:300] for e in stuck[:2]),
                                'case': case})
         return False
+    if stuck:
+        fails0, _ = oracle(lines, np, [p[2] for p in parts])
+        res.violations.append({'key': 'stuck:' + hashlib.md5('\n'.join(lines).encode()).hexdigest()[:10],
+                               'what': 'messages/transfers addressed to a rank never arrive or complete (no request completed for %d s): %s ; first missing: %s' % (
+                                   stuck_s, ' || '.join(' '.join(e[2:])[:300] for e in stuck[:2]), (fails0 or ['?'])[0][:200]),
+                               'case': case})
+        return False
     if r['rc'] != 0 and not r['complete']:
         key = 'crash:' + hashlib.md5('\n'.join(lines).encode()).hexdigest()[:10]
-        what = 'mpiexec -n %d exited with %d before every rank finished the script: %s' % (np, r['rc'], re.sub(r'\[vm:\d+\][^\n]*\n', '', r['err'])[-500:])
+        mpierr = ' '.join(sorted(set(re.findall(r'MPI_ERR_\w+: [^\n]*', r['err']) + re.findall(r'[^\n]*Assertion[^\n]*', r['err']) + re.findall(r'Signal: [^\n]*', r['err']))))[:600]
+        what = 'mpiexec -n %d exited with %d before every rank finished the script: %s %s' % (np, r['rc'], mpierr, re.sub(r'\[[\w.-]+:\d+\][^\n]*\n', '', r['err'])[-400:])
         if mixes_put_get(lines) and ('MPI_ERR_TRUNCATE' in r['err'] or 'truncated' in r['err']):
             key = 'F1:put-get-tag-collision'
         res.violations.append({'key': key, 'what': what, 'case': case})
